@@ -39,7 +39,7 @@ def dyn_paths(quick):
 @st.composite
 def init_cases(draw, paths):
     return dict(path=draw(st.sampled_from(paths)),
-                variant=draw(st.sampled_from(['asis', 'asis', 'offline', 'split_ok', 'split_bad', 'limit_below'])),
+                variant=draw(st.sampled_from(['asis', 'asis', 'offline', 'offline_syn', 'split_ok', 'split_bad', 'limit_below'])),
                 sel=draw(st.integers(0, 50)), gamma=draw(st.sampled_from([0.3, 0.5, 0.75])),
                 bad_sum=draw(st.sampled_from([0.8, 1.2])))
 
@@ -61,6 +61,32 @@ def build_variant(c):
         k = c['sel'] % len(rows[m])
         rows[m][k]['u'] = 0
         info['note'] = 'offline %s[%d]' % (m, k)
+    elif v == 'offline_syn' and syn_models:
+        # a synchronous machine taken out of service together with the controllers attached to it; its static
+        # generator stays in the data (in service): the plant keeps injecting its power-flow power
+        m = syn_models[c['sel'] % len(syn_models)]
+        k = c['sel'] % len(rows[m])
+        rows[m][k]['u'] = 0
+        gidx = rows[m][k]['idx']
+        off = ['%s[%s]' % (m, gidx)]
+        avrs = set()
+        for mm in rows:
+            grp = ss0.models[mm].group
+            if grp in ('Exciter', 'TurbineGov'):
+                for r in rows[mm]:
+                    if r.get('syn') == gidx:
+                        r['u'] = 0
+                        off.append('%s[%s]' % (mm, r['idx']))
+                        if grp == 'Exciter':
+                            avrs.add(r['idx'])
+        for mm in rows:
+            if ss0.models[mm].group == 'PSS':
+                for r in rows[mm]:
+                    if r.get('avr') in avrs:
+                        r['u'] = 0
+                        off.append('%s[%s]' % (mm, r['idx']))
+        info['note'] = 'offline plant ' + ', '.join(off)
+        info['offline_syn_gen'] = rows[m][k].get('gen')
     elif v in ('split_ok', 'split_bad') and syn_models:
         m = syn_models[c['sel'] % len(syn_models)]
         k = c['sel'] % len(rows[m])
@@ -223,6 +249,16 @@ def init_case(ctx, c):
         if not info['consistent'] and test_ok and c['variant'] == 'split_bad':
             ctx.fail('inconsistent_split_factors_reported_as_success', dict(case=brief, residual=res), sig=dict())
     # ---- (3) consistency with the power flow ------------------------------------------------------------------------------
+    # a static generator none of whose dynamic machines is in service keeps injecting: it must stay in service
+    replaced = set()
+    for mname, mdl in ss.exist.tds.items():
+        if mdl.n and hasattr(mdl, 'gen') and hasattr(mdl, 'u'):
+            replaced.update(mdl.gen.v[k] for k in range(mdl.n) if mdl.u.v[k])
+    for name in ('PV', 'Slack'):
+        mdl = ss.models[name]
+        for k, idx in enumerate(mdl.idx.v):
+            if idx in sg and idx not in replaced and not mdl.u.v[k]:
+                ctx.fail('static_generator_switched_off_without_replacement', dict(case=brief, gen=repr(idx)), sig=dict())
     if test_ok:
         if np.any(ss.Bus.a.v != bus_a) or np.any(ss.Bus.v.v != bus_v):
             ctx.fail('bus_voltages_changed_by_initialisation', dict(case=brief, dv=float(np.max(np.abs(ss.Bus.v.v - bus_v)))), sig=dict())
@@ -292,7 +328,7 @@ def camp_init(ctx):
             ctx.current_case = c
             ctx.evaluated()
             init_case(ctx, c)
-    drive(ctx, init_cases(paths), body, 5 if quick else 120, name='init', chunk=5, shrink=False, budget_s=120 if quick else 1500)
+    drive(ctx, init_cases(paths), body, 12 if quick else 120, name='init', chunk=6, shrink=False, budget_s=120 if quick else 1500)
 
 
 CAMPAIGNS = {
